@@ -237,6 +237,33 @@ func c14NoBlock(c *Ctx) *RuleResult {
 	return r
 }
 
+// c14Callbacks: no unknown code runs under a lock.
+func c14Callbacks(c *Ctx) *RuleResult {
+	r := &RuleResult{Rule: "C14.callback-under-lock", Floor: 20,
+		Doc: "no code the analysis cannot see runs while a mutex of the scoped packages is held: no call through a function value taken from a field, map or slice (as opposed to a literal of the same function or a parameter, which are followed) is made with a lock held -- such a callback may call back into the same component and block on that lock (read locks included: a waiting writer blocks new readers)"}
+	e := sharedLockEngine(c)
+	for _, s := range e.Order {
+		rel := relPkg(s.Pkg.Types)
+		if !inScope(rel, c14Scope) || rel == "pkg/sync" {
+			continue
+		}
+		if s.LockOps == 0 && len(s.Effects) == 0 {
+			continue
+		}
+		n := 0
+		for _, d := range s.Diags {
+			if d.Kind == "callback" {
+				n++
+				r.bad(c.Prop, s.Name+"|"+d.Key+"|callback", c.P.Pos(d.Pos), d.Msg)
+			}
+		}
+		if n == 0 {
+			r.ok(s.Name, c.P.Pos(s.Body.Pos()), "no call through a stored function value while a lock is held")
+		}
+	}
+	return r
+}
+
 func blockWhat(msg string) string {
 	if i := strings.Index(msg, " while "); i > 0 {
 		return msg[:i]
@@ -381,7 +408,7 @@ func init() {
 			"interface calls are resolved by class hierarchy for blocking/ordering facts, but only single-instance lock classes (frozen table) are reasoned about through them; per-object locks only through statically resolved calls",
 			"Darwin/Windows-only files are outside the analysed build configuration",
 		},
-		Rules: []RuleFunc{c14Balance, c14NoBlock, c14Pile, c14Order, c14Channels, c14PileImpl},
+		Rules: []RuleFunc{c14Balance, c14NoBlock, c14Pile, c14Order, c14Channels, c14PileImpl, c14Callbacks},
 	})
 }
 
